@@ -378,6 +378,52 @@ Definition onreq_drops_modelled : list String.string :=
    "handler, exist := mp.rpcHandlers[newMsg.Procedure] | !exist";
    "err = mp.rateLimit.checkLimit(newMsg.Procedure, remoteID, remoteAddr) | err != nil"]%string.
 
+(* Exact statement lists (as regenerated by translate/reqresp) of the functions around the skeleton: the public entry points
+   RequestFrom / Broadcast, the retry loop request() with its post-loop return, respond(), the constructors (fresh UUID per request
+   message, response timeout set from the constant in newMessageProtocol and nowhere else), the part of onResponse under resMu
+   and its non-returning statements before the lock. The model's events are read off these bodies. *)
+Definition pinned_bodies_modelled : list (String.string * list String.string) :=
+  [("RequestFrom"%string,
+    ["response, err := mp.request(ctx, peerID, procedure, data)";
+   "if err != nil { return Response{err: err} }";
+   "return *response"]%string);
+   ("Broadcast"%string,
+    ["peers := mp.peer.ConnectedPeers()";
+   "for _, peerID := range peers { if _, err := mp.request(ctx, peerID, procedure, data); err != nil { return err } }";
+   "return nil"]%string);
+   ("request"%string,
+    ["var ( err error res *Response )";
+   "for i := 0; i <= messageMaxRetries; i++ { if i > 0 { mp.logger.Debugf(""Retrying request message to %v. Retry count: %d"", id, i) } res, err = mp.sendRequestMessage(ctx, id, procedure, data) if err != nil { if errors.Is(err, errTimeout) { continue } return nil, err } return res, nil }";
+   "return nil, err"]%string);
+   ("respond"%string,
+    ["resMsg := newResponseMessage(reqMsgID, procedure, data, err)";
+   "return mp.send(ctx, id, messageProtocolResID(mp.chainID, mp.version), resMsg)"]%string);
+   ("newMessageProtocol"%string,
+    ["mp := &MessageProtocol{ resCh: make(map[string]chan<- *Response), timeout: messageResponseTimeout, rpcHandlers: make(map[string]RPCHandler), rateLimit: newRateLimit(), chainID: chainID, version: version, }";
+   "return mp"]%string);
+   ("newRequestMessage"%string,
+    ["return &Request{ ID: uuid.New().String(), Timestamp: time.Now().Unix(), PeerID: peerID, Procedure: procedure, Data: data, }"]%string);
+   ("newResponseMessage"%string,
+    ["errString := """"";
+   "if err != nil { errString = err.Error() }";
+   "return &responseMsg{ ID: reqMsgID, Procedure: procedure, Timestamp: time.Now().Unix(), Data: data, Error: errString, }"]%string);
+   ("onResponse/locked"%string,
+    ["mp.resMu.Lock()";
+   "defer mp.resMu.Unlock()";
+   "if ch, ok := mp.resCh[newMsg.ID]; ok { var resError error if newMsg.Error != """" { resError = errors.New(newMsg.Error) } select { case ch <- NewResponse( newMsg.Timestamp, s.Conn().RemotePeer(), newMsg.Data, resError, ): default: mp.logger.Warningf(""Duplicate response message received for request ID: %v"", newMsg.ID) } } else { mp.logger.Warningf(""Response message received for unknown request ID: %v"", newMsg.ID) }"]%string);
+   ("onResponse/before-lock (without the early returns)"%string,
+    ["buf, err := io.ReadAll(s)";
+   "s.Close()";
+   "mp.logger.Debugf(""Data from %v received: %s"", s.Conn().RemotePeer().String(), string(buf))";
+   "remoteAddr := s.Conn().RemoteMultiaddr()";
+   "newMsg := newResponseMessage("""", """", nil, nil)";
+   "mp.logger.Debugf(""Response message received: %+v"", newMsg)";
+   "_, exist := mp.rpcHandlers[newMsg.Procedure]";
+   "remoteID := s.Conn().RemotePeer()";
+   "mp.rateLimit.increaseCounter(newMsg.Procedure, remoteID)";
+   "err = mp.rateLimit.checkLimit(newMsg.Procedure, remoteID, remoteAddr)"]%string)].
+
+
 (* ---- observation-level helpers used by the correspondence (Corr/C17.v) *)
 
 (* result class of a whole request() call as seen by the caller *)
